@@ -387,7 +387,7 @@ func (r *Run) rangeIter(fr *frame, instr *ssa.Range, x value, t types.Type) iter
 		if x != nil {
 			es = append(es, x.entries...)
 		}
-		if r.ExploreMapOrder && len(es) > 1 {
+		if r.ExploreMapOrder && len(es) > 1 && r.permuteHere() {
 			// choose a permutation: n * (n-1) * ... forks
 			perm := make([]mapEntry, 0, len(es))
 			rest := append([]mapEntry(nil), es...)
@@ -406,6 +406,20 @@ func (r *Run) rangeIter(fr *frame, instr *ssa.Range, x value, t types.Type) iter
 		return r.nativeRange(x)
 	}
 	panic(unsupported(fmt.Sprintf("range over %T", x)))
+}
+
+// permuteHere: map iteration orders are explored at ONE range site per path (every site is
+// tried, every permutation at that site; all other sites iterate in insertion order). An
+// order-dependence that needs two simultaneously permuted sites is outside the bound.
+func (r *Run) permuteHere() bool {
+	if r.permuted {
+		return false
+	}
+	if r.choose(2) == 1 {
+		r.permuted = true
+		return true
+	}
+	return false
 }
 
 // ---------------------------------------------------------------- type assertions
